@@ -10,7 +10,7 @@ META = {
     "level": "model_checking",
     "technique": "TLA+ model of the pool/swarm lifecycle model-checked with TLC (+canary); traces of a real Swarm over a puppet transport validated by TLC against the property-level trace spec TraceSwarmConn (PROP=C01 guards)",
     "text": 'TLC exhaustively explores the transcribed pool/swarm lifecycle model (dial with its synchronous failure exits, incoming, pending tasks, peer-id check, behaviour decisions, close/disconnect/error paths; 2 connection ids quick, 3 thorough = 1.8 M states) for exactly-one-terminal, closed-once-after-established and same-view invariants, and rejects a duplicate-close canary. Conformance: a real Swarm over a puppet transport, polled deterministically, is driven through seeded schedules that pile up in-flight dials, inbound upgrades, authentications, muxer failures, closes and disconnects between polls; every FromSwarm callback, API result and SwarmEvent is recorded and TLC validates each run against the property-level trace spec (one terminal event per id in both views, Closed once and only after Established, SwarmEvent lifecycle order = FromSwarm order, every handed-out id resolved at quiescence).',
-    "note": 'ids whose transport future never completes are resolved by the driver at the end of a run (failed) before the at-quiescence clause is evaluated; one Swarm per run (multi-swarm runs not included)',
+    "note": 'ids whose transport future never completes are resolved by the driver at the end of a run (failed) before the at-quiescence clause is evaluated; puppet runs use one Swarm; the real-pair runs (2-3 Swarms over memory transport) are validated per Swarm',
     "design_ref": "6/C01",
 }
 
@@ -21,5 +21,5 @@ def run(c):
         "model_checking",
         rule="seeded random command schedules (dial/incoming/envDial/envUpgrade/failMux/close/disconnect/behClose/keepAlive/poll/poll1, 18-30 steps, <=4-6 connections, dial concurrency 1-3, deny probability 0/0.1/0.3) executed on a real Swarm; distinct = distinct schedules; non-trivial = the run contains at least one event the property talks about (terminal/closed callbacks)",
         assumptions=["single-threaded deterministic polling (Config::without_executor) - thread interleavings inside one Swarm are not explored",
-                     "PuppetTransport/PuppetMuxer stand in for real transports"],
+                     "PuppetTransport/PuppetMuxer stand in for real transports in the puppet runs; the pair runs use MemoryTransport + plaintext + yamux"],
     )
